@@ -40,7 +40,42 @@ def plans(quick):
     ]
 
 
+def suite_traces(ctx):
+    """the repository's own tests, every step of every test checked against the decision logic of StoreTrace.tla"""
+    from .. import trace_check
+
+    traces, summary = trace_check.record(ctx)
+    n, rejected = trace_check.validate(ctx, traces)
+    trace_check.selftest(ctx, traces)
+    ctx.traces += n
+    ctx.extra['suite_traces_validated'] = n
+    ctx.extra['suite_events'] = sum(len(t['events']) for t in traces)
+    ctx.extra['suite_result'] = summary
+    for test, k, ev, before, tasks in rejected:
+        what = {'R': 'run was entered although a result was visible and the task not forced, or a value was held',
+                'L': 'a result was loaded although it was not visible / the task was forced / a value was held',
+                'E': 'exists() contradicts the saves and deletes seen so far',
+                'S': 'a result was saved outside the request of its task or before run was entered',
+                'DE': 'a request returned without load or run, or a task holding a value did something'}.get(ev[0], 'event not allowed here')
+        ctx.report(f'suite-trace:{test}:{ev[0]}', f'{test}: event #{k} {ev} is not a behaviour of StoreTrace ({what}); '
+                                                   f'preceding events {before}')
+
+
 def run(ctx):
+    suite_traces(ctx)
     ctx.assumptions += ['run invocations are observed through the generated run bodies (no source hook)',
                         'Chain.draw() is not exercised (graphviz is not installed)']
-    run_families(ctx, plans(ctx.quick()), RELEVANT)
+    ps = plans(ctx.quick())
+    for p in ps:
+        p['opts'] = dict(p.get('opts') or {}, record=True)   # the replays are recorded too and validated below
+    run_families(ctx, ps, RELEVANT)
+    from .. import trace_check
+    rec = ctx.extra.pop('_recorded', [])
+    if rec:
+        traces = [{'test': f'replayed behaviour #{i}', 'events': ev} for i, ev in enumerate(rec)]
+        if ctx.quick():
+            traces = traces[:1500]
+        n, rejected = trace_check.validate(ctx, traces, label='replayed StoreAtomic behaviours (random drivers)')
+        ctx.extra['replay_traces_validated'] = n
+        for test, k, ev, before, tasks in rejected[:20]:
+            ctx.report(f'replay-trace:{ev[0]}', f'{test}: event #{k} {ev} is not a behaviour of StoreTrace; preceding {before}')
